@@ -41,6 +41,14 @@ fn elem_type(ty: &str) -> &'static str {
         "pair" => "(int, int)",
         "spair" => "(str, str)",
         "float" => "float",
+        // round 3: numeric-looking string keys; elements / values a runtime might take for "nothing"
+        "nstr" | "nstr2" | "estr" => "str",
+        "bool" => "bool",
+        "unit" => "()",
+        "lst" => "[int]",
+        "mayb" => "Maybe(int)",
+        "zint" => "int",
+        "vbool" | "vunit" | "vlst" | "vmayb" => "str", // dicts with string keys, the VALUE type is the point
         _ => "int",
     }
 }
@@ -50,7 +58,28 @@ fn dval_type(ty: &str) -> &'static str {
         "int" => "str",
         "str" => "int",
         "pair" => "(int, int)",
+        "float" => "float",
+        "estr" => "str",
+        "vbool" => "bool",
+        "vunit" => "()",
+        "vlst" => "[int]",
+        "vmayb" => "Maybe(int)",
         _ => "int",
+    }
+}
+
+/// The generic function menu of SyltStd's FalsyTypes; `v1` (from the case record) is the first value of the instantiation.
+fn generic_lambda(name: &str, ty: &str, v1: &Value) -> Option<(String, String)> {
+    let same = elem_type(ty).to_string();
+    if v1.is_null() || v1["k"] == "nil" {
+        return None;
+    }
+    match name {
+        "isv1" => Some((format!("pu x -> x == {} end", lit(v1)), same)),
+        "nev1" => Some((format!("pu x -> x != {} end", lit(v1)), same)),
+        "never" => Some(("pu x -> x != x end".to_string(), same)),
+        "cntv1" => Some((format!("pu v, a -> a * 2 + (if v == {} do 1 else 0 end) end", lit(v1)), "int".into())),
+        _ => None,
     }
 }
 
@@ -70,7 +99,7 @@ fn lambda(name: &str, ty: &str) -> (&'static str, String) {
         "inset" => ("pu x -> set.contains(auxs, x) end", same),
         "getacc" => ("pu v, a -> a * 3 + maybe.orDefault(list.get(aux, v), 5) end", "int".into()),
         "inc" => ("pu x -> x + 1 end", "int".into()),
-        "mkpair" => ("pu x -> (x, x) end", "(int, int)".into()),
+        "mkpair" => ("pu x -> (x, x) end", format!("({}, {})", same, same)),
         "dup" => ("pu x -> x + x end", "str".into()),
         "tag" => ("pu x -> (x, 1) end", "(str, int)".into()),
         "swap" => ("pu x -> (x[1], x[0]) end", same),
@@ -133,6 +162,7 @@ struct Emitter {
     ty: String,
     reg: usize,
     aux: Value,
+    v1: Value,
 }
 
 impl Emitter {
@@ -163,6 +193,14 @@ impl Emitter {
             _ => elem_type(&self.ty).to_string(),
         }
     }
+    /// a function of the menu as a Sylt lambda, with the result type of map functions
+    fn lambda_of(&self, name: &str) -> (String, String) {
+        if let Some(g) = generic_lambda(name, &self.ty, &self.v1) {
+            return g;
+        }
+        let (text, t) = lambda(name, &self.ty);
+        (text.to_string(), t)
+    }
     /// the call expression of an operation on the container `c` (or of a helper)
     fn call(&mut self, op: &Value) -> String {
         let name = op["op"].as_str().unwrap();
@@ -170,7 +208,7 @@ impl Emitter {
         let mut xs: Vec<String> = vec![];
         for a in args {
             if a["k"] == "fn" {
-                xs.push(lambda(a["name"].as_str().unwrap(), &self.ty).0.to_string());
+                xs.push(self.lambda_of(a["name"].as_str().unwrap()).0);
             } else {
                 xs.push(lit(a));
             }
@@ -223,7 +261,7 @@ impl Emitter {
     /// type of the elements of a list-valued result (map may change the element type)
     fn result_elem_type(&self, op: &Value) -> String {
         if op["op"] == "map" {
-            lambda(op["a"][0]["name"].as_str().unwrap(), &self.ty).1
+            self.lambda_of(op["a"][0]["name"].as_str().unwrap()).1
         } else {
             elem_type(&self.ty).to_string()
         }
@@ -272,7 +310,7 @@ fn op_text(op: &Value) -> String {
 fn transition(case: &Value) -> (Vec<String>, Vec<PlanLine>) {
     let mut em = Emitter { body: vec![], lines: vec![], nlit: 0,
         kind: case["kind"].as_str().unwrap().to_string(), ty: case["ty"].as_str().unwrap().to_string(), reg: 0,
-        aux: case["aux"].clone() };
+        aux: case["aux"].clone(), v1: case["v1"].clone() };
     if em.kind == "share" {
         return share_transition(case, em);
     }
